@@ -176,6 +176,37 @@ class Flow:
         return list(self.conn.keylog)
 
 
+def first_app_packet(conn, pkts):
+    """index of the first packet that carries (part of) an application-data record: before it the order of the two
+    directions is fixed by the handshake's causality"""
+    rr = [(d, s_, e) for d, s_, e, r in record_ranges(conn) if r.kind == "app"]
+    for i, p in enumerate(pkts):
+        if p.payload and any(d == p.dir and p.start < e and p.end > s_ for d, s_, e in rr):
+            return i
+    return len(pkts)
+
+
+def duplex_interleave(pkts, start=0):
+    """full-duplex capture order: wherever two consecutive data segments of one direction are followed (later) by a data
+    packet of the other direction, that packet is captured BETWEEN the two segments (each direction keeps its own order).
+    Applied to alternate opportunities; returns a new list."""
+    pk = list(pkts)
+    i, flip = start, 0
+    while i < len(pk) - 2:
+        a, b = pk[i], pk[i + 1]
+        if a.payload and b.payload and a.dir == b.dir:
+            j = next((k for k in range(i + 2, len(pk)) if pk[k].payload and pk[k].dir != a.dir), None)
+            # only move it if nothing of its own direction lies in between (order per direction is kept)
+            if j is not None and not any(pk[k].payload and pk[k].dir == pk[j].dir for k in range(i + 2, j)):
+                flip += 1
+                if flip % 2:
+                    pk.insert(i + 1, pk.pop(j))
+                    i += 3
+                    continue
+        i += 1
+    return pk
+
+
 def tls_flow(scn, seed, idx, v6=False, server_port=443, key=(), **kw):
     """kw: mss, merged, handshake, isn, cutter (see cap.tcp_packets / tls_packets)"""
     conn = tls_conn(scn, seed, key=("flow", idx) + tuple(key))
